@@ -73,8 +73,15 @@ class StrExec:
                 h = self.hole_for_subscript(n, self)
                 if h is not None:
                     return h
-            base, idx = self.ev(n.value), self.ev(n.slice) if not isinstance(n.slice, ast.Slice) else UNKNOWN
-            if isinstance(base, (list, tuple)) and isinstance(idx, int):
+            if isinstance(n.slice, ast.Slice):
+                b = self.ev(n.value)
+                lo = self.ev(n.slice.lower) if n.slice.lower is not None else None
+                hi = self.ev(n.slice.upper) if n.slice.upper is not None else None
+                if isinstance(b, (str, list)) and all(x is None or isinstance(x, int) for x in (lo, hi)) and n.slice.step is None:
+                    return b[lo:hi]
+                return UNKNOWN
+            base, idx = self.ev(n.value), self.ev(n.slice)
+            if isinstance(base, (list, tuple, str)) and not isinstance(base, Hole) and isinstance(idx, int):
                 return base[idx] if -len(base) <= idx < len(base) else UNKNOWN
             if isinstance(base, dict) and idx in base:
                 return base[idx]
@@ -86,7 +93,41 @@ class StrExec:
                     return r
             name = src(n.func)
             if name == 'str' and len(n.args) == 1:
-                return self.ev(n.args[0])
+                v = self.ev(n.args[0])
+                if v is UNKNOWN or isinstance(v, (str, list, dict)):
+                    return v
+                return str(v)
+            if isinstance(n.func, ast.Attribute) and n.func.attr in ('items', 'keys', 'values') and not n.args:
+                d = self.ev(n.func.value)
+                if isinstance(d, dict):
+                    return [[a, b] for a, b in d.items()] if n.func.attr == 'items' else (list(d) if n.func.attr == 'keys' else list(d.values()))
+                return UNKNOWN
+            if isinstance(n.func, ast.Attribute) and n.func.attr == 'join' and len(n.args) == 1:
+                sep = self.ev(n.func.value)
+                seq = self.ev(n.args[0])
+                if isinstance(seq, dict):
+                    seq = list(seq)
+                if isinstance(sep, str) and isinstance(seq, list) and all(isinstance(x, str) for x in seq):
+                    return sep.join(seq)
+                return UNKNOWN
+            if name in ('OrderedDict.fromkeys', 'dict.fromkeys', 'collections.OrderedDict.fromkeys') and len(n.args) >= 1:
+                v = self.ev(n.args[0])
+                if isinstance(v, dict):
+                    v = list(v)
+                if isinstance(v, list) and all(isinstance(x, (str, int, float)) for x in v):
+                    return {x: None for x in v}
+                return UNKNOWN
+            if name in ('set', 'frozenset', 'sorted') and len(n.args) == 1 and not n.keywords:
+                v = self.ev(n.args[0])
+                if isinstance(v, dict):
+                    v = list(v)
+                if isinstance(v, list) and all(isinstance(x, (str, int, float)) for x in v):
+                    u = list(dict.fromkeys(v))
+                    return sorted(u) if name == 'sorted' and not any(isinstance(x, Hole) for x in u) else (sorted(v) if name == 'sorted' else u)
+                return UNKNOWN
+            if name in ('list', 'tuple') and len(n.args) == 1:
+                v = self.ev(n.args[0])
+                return list(v) if isinstance(v, (list, dict)) else UNKNOWN
             if name == 'len' and len(n.args) == 1:
                 v = self.ev(n.args[0])
                 return len(v) if isinstance(v, (list, tuple, str, dict)) else UNKNOWN
@@ -130,11 +171,40 @@ class StrExec:
         if isinstance(n, ast.UnaryOp) and isinstance(n.op, ast.Not):
             v = self.ev(n.operand)
             return UNKNOWN if v is UNKNOWN else (not v)
+        if isinstance(n, ast.UnaryOp) and isinstance(n.op, ast.USub):
+            v = self.ev(n.operand)
+            return -v if isinstance(v, (int, float)) else UNKNOWN
         if isinstance(n, (ast.List, ast.Tuple)):
             return [self.ev(e) for e in n.elts]
+        if isinstance(n, (ast.ListComp, ast.GeneratorExp)) and len(n.generators) == 1 and not n.generators[0].ifs:
+            g = n.generators[0]
+            it = self.ev(g.iter)
+            if isinstance(it, dict):
+                it = list(it)
+            if not isinstance(it, list):
+                return UNKNOWN
+            out = []
+            saved = dict(self.env)
+            for v in it:
+                self.bind(g.target, v)
+                out.append(self.ev(n.elt))
+            self.env = saved
+            return out
         if isinstance(n, ast.Dict):
-            return UNKNOWN
+            if any(k is None for k in n.keys):
+                return UNKNOWN
+            ks = [self.ev(k) for k in n.keys]
+            if any(k is UNKNOWN or isinstance(k, (list, dict)) for k in ks):
+                return UNKNOWN
+            return {k: self.ev(v) for k, v in zip(ks, n.values)}
         return UNKNOWN
+
+    def bind(self, target, v):
+        if isinstance(target, ast.Name):
+            self.env[target.id] = v
+        elif isinstance(target, (ast.Tuple, ast.List)) and isinstance(v, (list, tuple)) and len(v) == len(target.elts):
+            for t, x in zip(target.elts, v):
+                self.bind(t, x)
 
     # -- statements
     def writes_tracked(self, stmts):
@@ -181,13 +251,14 @@ class StrExec:
             return
         if isinstance(s, ast.For):
             it = self.ev(s.iter)
+            if isinstance(it, dict):
+                it = list(it)
             if it is UNKNOWN or not isinstance(it, (list, tuple)):
                 if self.writes_tracked(s.body):
                     raise AnalysisError('a tracked string is written in a loop over an unknown sequence: %s (line %s)' % (src(s.iter), s.lineno))
                 return
             for v in it:
-                if isinstance(s.target, ast.Name):
-                    self.env[s.target.id] = v
+                self.bind(s.target, v)
                 self.run(s.body)
             return
         if isinstance(s, ast.Raise):
@@ -195,8 +266,14 @@ class StrExec:
             return
         if isinstance(s, (ast.Expr, ast.Pass, ast.Import, ast.ImportFrom, ast.Return, ast.Assert)):
             return
+        if isinstance(s, ast.Assign) and len(s.targets) == 1 and isinstance(s.targets[0], ast.Subscript) and isinstance(s.targets[0].value, ast.Name):
+            base = self.env.get(s.targets[0].value.id, UNKNOWN)
+            key = self.ev(s.targets[0].slice)
+            if isinstance(base, dict) and key is not UNKNOWN and not isinstance(key, (list, dict)):
+                base[key] = self.ev(s.value)     # item store into a dict built by this code
+            return
         if isinstance(s, (ast.Assign, ast.AugAssign, ast.AnnAssign)):
-            return      # stores into attributes / subscripts are irrelevant to the tracked strings
+            return      # other stores into attributes / subscripts are irrelevant to the tracked strings
         if isinstance(s, (ast.While, ast.Try, ast.With)):
             if self.writes_tracked([s]):
                 raise AnalysisError('tracked string written inside unsupported statement at line %s' % s.lineno)
